@@ -164,6 +164,10 @@ func runC17(seed int64, n int, dir string, tier string) *Report {
 				bin = stress
 			}
 			cmd := exec.Command(bin, "-mode", "firstuse", "-workers", "64")
+			if r%10 == 3 {
+				// a registration or removal as the first call of a fresh process, then a lookup
+				cmd = exec.Command(bin, "-mode", "firstreg", "-seed", fmt.Sprint(r/10))
+			}
 			cmd.Env = append(os.Environ(), "GORACE=halt_on_error=0")
 			var so, se bytes.Buffer
 			cmd.Stdout, cmd.Stderr = &so, &se
